@@ -19,7 +19,10 @@ RULE = ("random trees (depth <= 4, empty directories and files, binary / CRLF co
 ASSUMPTIONS = ["exclusion semantics are pathspec's (a table computed with pathspec itself is passed to the model)",
                "SHA-256 is computed by the harness (hashlib); the model carries digests",
                "file names contain no backslash; directory links are acyclic; '..' in start paths is not generated"]
-PATTERNS = [[], [], ["*.pyc"], ["sub"], ["sub/"], ["*.txt", "!bar.txt"], ["deep/*"], ["/a"], ["**/lib"], ["x y"], [".*"], ["*~", "*.link"]]
+# (root-anchored and slash-containing patterns name a directory relative to the base: a directory of the same name
+#  deeper in the tree is not excluded by them)
+PATTERNS = [[], [], ["*.pyc"], ["sub"], ["sub/"], ["*.txt", "!bar.txt"], ["deep/*"], ["/a"], ["**/lib"], ["x y"], [".*"], ["*~", "*.link"],
+            ["/sub"], ["/lib", "/deep"], ["/sub/deep"], ["lib/sub"], ["/a", "/b", "/foo"]]
 
 
 def gen_starts(rng, tree):
@@ -103,8 +106,24 @@ def impl_record(d, base, starts, patterns, follow, normalize, lstrip, use_settin
         os.chdir(cwd)
 
 
+def nest_same_names(rng, tree):
+    """Repeats the name of a top-level directory one or two levels further down (with a file inside)."""
+    tops = [n for n, nd in tree.items() if nd[0] == "d"]
+    if not tops:
+        return
+    name = rng.choice(tops)
+    host = rng.choice(tops)
+    inner = tree[host][1]
+    if rng.random() < 0.5 and any(nd[0] == "d" for nd in inner.values()):
+        inner = rng.choice([nd for nd in inner.values() if nd[0] == "d"])[1]
+    if name not in inner:
+        inner[name] = ("d", {"inner.txt": ("f", b"inner %d\n" % rng.randrange(9))})
+
+
 def one_case(rng, res):
     tree = T.gen_tree(rng)
+    if rng.random() < 0.35:
+        nest_same_names(rng, tree)
     if rng.random() < 0.6:
         T.add_symlinks(rng, tree, rng.randrange(1, 4))
     starts = gen_starts(rng, tree)
